@@ -157,6 +157,8 @@ func run(s *kernel.Sim, c *scen.Case) {
 	}
 	desc := fmt.Sprintf("sinful=%s enc=%v integ=%v ciphers=%q version=%q lifetime=%v validcmds=%v peeraddr=%q", opts.Sinful, ptr(opts.Encryption), ptr(opts.Integrity), opts.CryptoMethods, opts.RemoteVersion, lifetime, opts.ValidCommands, opts.PeerAddr)
 	sigOpts := fmt.Sprintf("sinful#%d/ciphers=%s/lifetime=%v", indexOf(sinfuls, opts.Sinful), opts.CryptoMethods, lifetime > 0)
+	// mint at an arbitrary instant, not on a whole second of the simulated clock
+	w.sleep(time.Duration(t.Choose("pre-mint-ms", 2500)) * time.Millisecond)
 	minted, err := security.MintClaimSession(A.cache, opts)
 	if err != nil {
 		s.Violate("mint-failed", sigOpts, fmt.Sprintf("%s: %v", desc, err))
